@@ -237,6 +237,11 @@ def run(ctx):
     for st in walk_no_nested(cj.node):
         if isinstance(st, ast.Assign) and len(st.targets) == 1 and isinstance(st.targets[0], ast.Attribute) and dotted(st.targets[0].value) == 'clause' and st.targets[0].attr != 'endpos':
             marks[st.targets[0].attr] = st.value
+    def final_results(edge_ok):
+        """the assignments to `result` in simplify() that are executed last under the scenario (a later one overrides an earlier one)"""
+        live_ = gs.reach([gs.entry], edge_ok=edge_ok)
+        cand = [x for x in gs.nodes if x.id in live_ and x.kind == 'stmt' and isinstance(x.ast, ast.Assign) and any(dotted(t_) == 'result' for t_ in x.ast.targets)]
+        return [x for x in cand if not any(y.id in gs.reach([x], include_src=False, edge_ok=edge_ok) for y in cand if y is not x)]
     npol = 0
     for kind in ('final', 'or', 'and'):
         for taken_on_true in (True, False):
@@ -247,7 +252,7 @@ def run(ctx):
                 if tt == '%s.posin%s.or_jumps' % (recv, recv): return kind == 'or'
                 if isinstance(node, ast.Name) and node.id == sense: return t
                 return None
-            eo = scenario_edges(gj, cj.node, atom, resolve=False)
+            eo = scenario_edges(gj, cj.node, atom, resolve=True)
             live = gj.reach([gj.entry], edge_ok=eo)
             types = {norm(x.ast.value) for x in gj.nodes if x.id in live and x.kind == 'stmt' and isinstance(x.ast, ast.Assign) and any(dotted(t_) == 'clausetype' for t_ in x.ast.targets)}
             ctypes = set()
@@ -260,7 +265,8 @@ def run(ctx):
             neg_cj = [x for x in gj.nodes if x.id in live and x.kind == 'stmt' and isinstance(x.ast, ast.Assign) and is_not_node(x.ast.value)]
             ctx.need(len(ctypes) == 1 and '?' not in ctypes and len(neg_cj) <= 1, 'C03-POLARITY: conditional_jump_new not interpretable for a %s-jump taken on %s: clause types %s' % (kind, taken_on_true, sorted(ctypes)))
             ctype = ctypes.pop()
-            mark_vals = {m_: eval_test(e_, atom) for m_, e_ in marks.items()}
+            from ..typestate import resolve_flags as _rf
+            mark_vals = {m_: eval_test(_rf(cj.node, e_), atom) for m_, e_ in marks.items()}
             def atom_s(text, node, ctype=ctype, mark_vals=mark_vals):
                 if isinstance(node, ast.Call) and dotted(node.func) == 'isinstance' and len(node.args) == 2:
                     what = norm(node.args[1])
@@ -273,7 +279,7 @@ def run(ctx):
                 return None
             eos = scenario_edges(gs, sf.node, atom_s, resolve=True)
             lives = gs.reach([gs.entry], edge_ok=eos)
-            res = [x for x in gs.nodes if x.id in lives and x.kind == 'stmt' and isinstance(x.ast, ast.Assign) and any(dotted(t_) == 'result' for t_ in x.ast.targets)]
+            res = final_results(eos)
             ctx.need(len(res) == 1, 'C03-POLARITY: simplify() not interpretable for a one-item %s clause (%d reachable results)' % (ctype, len(res)))
             neg_s = is_not_node(res[0].ast.value)
             negated = bool(neg_cj) != neg_s
@@ -298,7 +304,7 @@ def run(ctx):
                 if tt == '%s.pos<%s.conditions_end' % (cn.recv, cn.recv): return True
                 if isinstance(node, ast.Name) and node.id == nsense: return negate
                 return None
-            eon = scenario_edges(gn, cn.node, atom_n, resolve=False)
+            eon = scenario_edges(gn, cn.node, atom_n, resolve=True)
             liven = gn.reach([gn.entry], edge_ok=eon)
             def pick(var):
                 vals = set()
@@ -314,7 +320,7 @@ def run(ctx):
             ctx.need(len(cts) == 1 and len(ops) == 1 and '?' not in cts | ops, 'C03-POLARITY: conditional_jump_none_impl not interpretable (%s, negate=%s): %s %s' % (kind, negate, cts, ops))
             ctype = cts.pop()[4:]; opn = ops.pop()[4:]
             item_is_J = (opn == 'IsNot') == negate
-            mark_vals = {m_: eval_test(e_, atom_n) for m_, e_ in nmarks.items()}
+            mark_vals = {m_: eval_test(_rf(cn.node, e_), atom_n) for m_, e_ in nmarks.items()}
             def atom_s2(text, node, ctype=ctype, mark_vals=mark_vals):
                 if isinstance(node, ast.Call) and dotted(node.func) == 'isinstance' and len(node.args) == 2:
                     what = norm(node.args[1])
@@ -324,8 +330,7 @@ def run(ctx):
                 if isinstance(node, ast.Attribute) and node.attr in mark_vals: return mark_vals[node.attr]
                 if isinstance(node, ast.Compare) and norm(node).replace(' ', '').startswith('len(clause.values)'): return eval('1' + norm(node).replace(' ', '')[len('len(clause.values)'):], {})
                 return None
-            lives = gs.reach([gs.entry], edge_ok=scenario_edges(gs, sf.node, atom_s2, resolve=True))
-            res = [x for x in gs.nodes if x.id in lives and x.kind == 'stmt' and isinstance(x.ast, ast.Assign) and any(dotted(t_) == 'result' for t_ in x.ast.targets)]
+            res = final_results(scenario_edges(gs, sf.node, atom_s2, resolve=True))
             ctx.need(len(res) == 1, 'C03-POLARITY: simplify() not interpretable for a one-item %s clause' % ctype)
             value_is_J = item_is_J != is_not_node(res[0].ast.value)
             want_J = kind == 'or'
